@@ -116,13 +116,17 @@ def scenarios():
     return out
 
 
-def run(F, R):
+def bar_probe_rules(F, R):
     bi = [b for b in F.bodies.values() if F.handwritten(b) and b['kind'] == 'AssocFn' and 'Option<transport::pci::bus::BarInfo>' in b.get('sig', '')]
     if not bi:
         raise Undecided('BAR probing function (returns Result<Option<BarInfo>>) not found')
     for b in bi:
         if any(l['ty'] == 'u8' for l in b['locals'][1:b['arg_count'] + 1]):
             b1_b2(F, R, b)
+
+
+def run(F, R):
+    bar_probe_rules(F, R)
     b3_cam(F, R)
     b3b_valid(F, R)
     b4_decode(F, R)
